@@ -93,11 +93,12 @@ def run(ck, facts, tier):
         opt = Sym("call", "chrono::NaiveDate::from_ymd_opt", (Y.key(), M.key(), dv.key()))
         some, none = ("arm", ("Some", "_"), vkey(opt)), ("arm", "None", vkey(opt))
         by = {}
+        GT28 = paths.lit(cel.cmp_sym("Gt", dv, Poly.const(28), True))
         for c, v in paths.flatten(got):
             dc = dict(c)
             if dc.get(some):
                 by["valid"] = v
-            elif dc.get(vkey(cel.cmp_sym("Gt", dv, Poly.const(28), True))) is True:
+            elif dc.get(GT28[0]) is GT28[1]:
                 by["retry"] = v
             else:
                 by["abort"] = v
@@ -118,7 +119,7 @@ def run(ck, facts, tier):
         got = cel.Ev(facts, hooks=base).apply_fn(fn, [Y, M], 0)
         call = lambda d: Sym("call", "chrono::NaiveDate::from_ymd_opt", (Y.key(), M.key(), d.key()))
         dayv, datev = LV(0, True), LV(1)
-        it = ITER(1, [Poly.const(31), call(Poly.const(31))], Sym("cmp", "Eq", vkey(datev), vkey(Sym("ctor", "None"))), [dayv - Poly.const(1), call(dayv - Poly.const(1))])
+        it = ITER(1, [Poly.const(31), call(Poly.const(31))], Sym("m", "is_none", vkey(datev), ()), [dayv - Poly.const(1), call(dayv - Poly.const(1))])
         want = Sym("m", "unwrap", vkey(Sym("m", "and_hms_opt", vkey(Sym("m", "unwrap", vkey(it), ())), (Poly.const(0).key(),) * 3)), ())
         ck.check(r4, "get_eom", vkey(got) == vkey(want), "get_eom is not: day := 31; while (year, month, day) is invalid { day := day - 1 }", "%s:%d" % (r["file"], r["line"]),
                  detail=cel.vfmt(got)[:500], sample="largest valid day <= 31 of the month, at midnight")
@@ -128,7 +129,7 @@ def run(ck, facts, tier):
         fn = MOD + "is_leap_year"
         r = facts.fn(fn)
         got = cel.Ev(facts, hooks=base).apply_fn(fn, [Y], 0)
-        want = Sym("m", "is_some", vkey(Sym("call", "chrono::NaiveDate::from_ymd_opt", (Y.key(), Poly.const(2).key(), Poly.const(29).key()))), ())
+        want = Sym("not", vkey(Sym("m", "is_none", vkey(Sym("call", "chrono::NaiveDate::from_ymd_opt", (Y.key(), Poly.const(2).key(), Poly.const(29).key()))), ())))
         ck.check(r4, "is_leap_year", vkey(got) == vkey(want), "is_leap_year is not 'February 29 of that year exists'", "%s:%d" % (r["file"], r["line"]), detail=cel.vfmt(got)[:200], sample="from_ymd_opt(year, 2, 29).is_some()")
     except Unsupported as e:
         ck.fail(r4, "is_leap_year", "rule could not be established (%s)" % e)
@@ -139,7 +140,7 @@ def run(ck, facts, tier):
             hk4 = dict(base, **{MOD + getter: lambda ev, vals, e, g=getter: R(g, *vals)})
             got = cel.Ev(facts, hooks=hk4).apply_fn(fn, [D], 0)
             tgt = R(getter, Sym("m", "year", vkey(D), ()), Sym("m", "month", vkey(D), ()))
-            ok = vkey(got) in (vkey(Sym("cmp", "Eq", vkey(D), vkey(tgt))), vkey(Sym("cmp", "Eq", vkey(tgt), vkey(D))))
+            ok = vkey(got) == vkey(cel.eq_sym(D, tgt))
             ck.check(r4, nm, ok, "%s does not compare the date with %s(date.year(), date.month())" % (nm, getter), "%s:%d" % (r["file"], r["line"]), detail=cel.vfmt(got)[:200], sample="date == %s(y, m)" % getter)
         except Unsupported as e:
             ck.fail(r4, nm, "rule could not be established (%s)" % e)
